@@ -10,6 +10,9 @@
 //	fresh2  the same again after every other case has been translated (history independence)
 //	conc    the same again from 16 goroutines that translate all cases in a shuffled order at once
 //
+//	top     the entry points the services call with the query text, the same text translated again and again
+//	        (sequentially between other queries and from the soak goroutines): chain description + SQL
+//
 // Only the texts are recorded; checks/c14.py compares them with each other (the property's oracle)
 // and with the planner model.
 package main
@@ -19,12 +22,16 @@ import (
 	"flag"
 	"fmt"
 	"math/rand"
+	"reflect"
+	"sort"
 	"strings"
 	"sync"
 	"time"
+	"unsafe"
 
 	"github.com/metrico/cloki-config/config"
 	"github.com/metrico/qryn/reader/logql/logql_parser"
+	logql_transpiler_v2 "github.com/metrico/qryn/reader/logql/logql_transpiler_v2"
 	"github.com/metrico/qryn/reader/logql/logql_transpiler_v2/clickhouse_planner"
 	"github.com/metrico/qryn/reader/logql/logql_transpiler_v2/shared"
 	"github.com/metrico/qryn/reader/model"
@@ -33,6 +40,7 @@ import (
 	prof_transpiler "github.com/metrico/qryn/reader/prof/transpiler"
 	v1 "github.com/metrico/qryn/reader/prof/types/v1"
 	traceql_parser "github.com/metrico/qryn/reader/traceql/parser"
+	traceql_transpiler "github.com/metrico/qryn/reader/traceql/transpiler"
 	"github.com/metrico/qryn/reader/traceql/transpiler/clickhouse_transpiler"
 	sql "github.com/metrico/qryn/reader/utils/sql_select"
 	"github.com/metrico/qryn/reader/utils/tables"
@@ -64,6 +72,10 @@ type Case struct {
 	Fresh  []string `json:"fresh,omitempty"`
 	Fresh2 []string `json:"fresh2,omitempty"`
 	Conc   []string `json:"conc,omitempty"`
+	// the entry points the services call with the query TEXT (logql_transpiler_v2.Transpile, traceql_transpiler.Plan*,
+	// prof/transpiler.Plan*): translation #1, #2 (after all other cases), then one per soak goroutine that differs (or #1);
+	// each is the description of the whole processor chain: the in-process stages with their parameters and the SQL
+	Top []string `json:"top,omitempty"`
 	Err    string   `json:"err,omitempty"` // parse | plan
 }
 
@@ -268,11 +280,168 @@ func runFresh(c *Case) []string {
 	return res
 }
 
+
+// ---------------------------------------------------------------- top-level entry points
+
+var sqlPlannerType = reflect.TypeOf((*shared.SQLRequestPlanner)(nil)).Elem()
+
+func exported(v reflect.Value) reflect.Value {
+	if v.CanInterface() {
+		return v
+	}
+	if v.CanAddr() {
+		return reflect.NewAt(v.Type(), unsafe.Pointer(v.UnsafeAddr())).Elem()
+	}
+	return v
+}
+
+// describe prints a processor chain: qryn structs with all their fields, everything else by type name;
+// the outermost SQL planner met on the way is replaced by the statement it renders for pc
+func describe(c *Case, v reflect.Value, pc func() *shared.PlannerContext, seen map[uintptr]bool, depth int, b *strings.Builder) {
+	if depth > 40 {
+		b.WriteString("<deep>")
+		return
+	}
+	if !v.IsValid() {
+		b.WriteString("nil")
+		return
+	}
+	v = exported(v)
+	if (v.Kind() == reflect.Interface || v.Kind() == reflect.Ptr) && !v.IsNil() && v.Type().Implements(sqlPlannerType) && v.CanInterface() {
+		if sp, ok := v.Interface().(shared.SQLRequestPlanner); ok && sp != nil {
+			b.WriteString("SQL{" + text(c, &plan{sp}, pc()) + "}")
+			return
+		}
+	}
+	switch v.Kind() {
+	case reflect.Interface:
+		if v.IsNil() {
+			b.WriteString("nil")
+			return
+		}
+		describe(c, v.Elem(), pc, seen, depth+1, b)
+	case reflect.Ptr:
+		if v.IsNil() {
+			b.WriteString("nil")
+			return
+		}
+		if seen[v.Pointer()] {
+			b.WriteString("<cycle>")
+			return
+		}
+		seen[v.Pointer()] = true
+		b.WriteString("&")
+		describe(c, v.Elem(), pc, seen, depth+1, b)
+		delete(seen, v.Pointer())
+	case reflect.Struct:
+		t := v.Type()
+		b.WriteString(t.String())
+		if !strings.HasPrefix(t.PkgPath(), "github.com/metrico/qryn") {
+			return
+		}
+		b.WriteString("{")
+		for i := 0; i < v.NumField(); i++ {
+			if i > 0 {
+				b.WriteString(" ")
+			}
+			b.WriteString(t.Field(i).Name + ":")
+			describe(c, v.Field(i), pc, seen, depth+1, b)
+		}
+		b.WriteString("}")
+	case reflect.Slice, reflect.Array:
+		if v.Kind() == reflect.Slice && v.IsNil() {
+			b.WriteString("nil")
+			return
+		}
+		b.WriteString("[")
+		for i := 0; i < v.Len(); i++ {
+			if i > 0 {
+				b.WriteString(" ")
+			}
+			describe(c, v.Index(i), pc, seen, depth+1, b)
+		}
+		b.WriteString("]")
+	case reflect.Map:
+		var parts []string
+		it := v.MapRange()
+		for it.Next() {
+			var kb, vb strings.Builder
+			describe(c, it.Key(), pc, seen, depth+1, &kb)
+			describe(c, it.Value(), pc, seen, depth+1, &vb)
+			parts = append(parts, kb.String()+":"+vb.String())
+		}
+		sort.Strings(parts)
+		b.WriteString("map[" + strings.Join(parts, " ") + "]")
+	case reflect.String:
+		b.WriteString(fmt.Sprintf("%q", v.String()))
+	case reflect.Bool:
+		b.WriteString(fmt.Sprint(v.Bool()))
+	case reflect.Int, reflect.Int8, reflect.Int16, reflect.Int32, reflect.Int64:
+		b.WriteString(fmt.Sprint(v.Int()))
+	case reflect.Uint, reflect.Uint8, reflect.Uint16, reflect.Uint32, reflect.Uint64, reflect.Uintptr:
+		b.WriteString(fmt.Sprint(v.Uint()))
+	case reflect.Float32, reflect.Float64:
+		b.WriteString(fmt.Sprint(v.Float()))
+	case reflect.Func:
+		if v.IsNil() {
+			b.WriteString("nil")
+		} else {
+			b.WriteString("func")
+		}
+	default:
+		b.WriteString(v.Type().String())
+	}
+}
+
+// one translation of the query TEXT through the entry point the services call
+func runTop(c *Case) string {
+	var out string
+	p := hx.Catch(func() {
+		var root interface{}
+		var err error
+		switch c.Lang {
+		case "logql":
+			root, err = logql_transpiler_v2.Transpile(c.Query)
+		case "traceql":
+			var script *traceql_parser.TraceQLScript
+			script, err = traceql_parser.Parse(c.Query)
+			if err == nil {
+				switch c.Mode {
+				case "tags":
+					root, err = traceql_transpiler.PlanTagsV2(script)
+				case "values":
+					root, err = traceql_transpiler.PlanValuesV2(script, "k")
+				default:
+					root, err = traceql_transpiler.Plan(script)
+				}
+			}
+		default:
+			var pl *plan
+			pl, _, err = build(c)
+			if err == nil {
+				root = pl.p
+			}
+		}
+		if err != nil {
+			out = "!transpile: " + err.Error()
+			return
+		}
+		var b strings.Builder
+		describe(c, reflect.ValueOf(root), func() *shared.PlannerContext { return mkCtx(c, c.Windows[0], 0) }, map[uintptr]bool{}, 0, &b)
+		out = b.String()
+	})
+	if p != "" {
+		return "!panic: " + p
+	}
+	return out
+}
+
 func run(c *Case) {
-	c.Tail, c.Reuse, c.Fresh, c.Fresh2, c.Conc, c.Err = nil, nil, nil, nil, nil, ""
+	c.Tail, c.Reuse, c.Fresh, c.Fresh2, c.Conc, c.Top, c.Err = nil, nil, nil, nil, nil, nil, ""
 	if len(c.Windows) == 0 {
 		c.Windows = [][2]int64{{c.Ctx.FromNs, c.Ctx.ToNs}}
 	}
+	c.Top = []string{runTop(c)}
 	_, kind, err := build(c)
 	if err != nil {
 		c.Err = kind + ": " + err.Error()
@@ -286,6 +455,7 @@ func run(c *Case) {
 // 16 goroutines translate every case (new plans) in shuffled orders at the same time
 func soak(cases []*Case, seed int64, workers int, share int) {
 	res := make([][][]string, workers)
+	tops := make([][]string, workers)
 	var wg sync.WaitGroup
 	for w := 0; w < workers; w++ {
 		wg.Add(1)
@@ -294,7 +464,11 @@ func soak(cases []*Case, seed int64, workers int, share int) {
 			r := rand.New(rand.NewSource(seed + int64(w)*7919))
 			order := r.Perm(len(cases))
 			res[w] = make([][]string, len(cases))
+			tops[w] = make([]string, len(cases))
 			for _, i := range order {
+				if (i+w)%share == 0 {
+					tops[w][i] = runTop(cases[i])
+				}
 				if cases[i].Err != "" || (i+w)%share != 0 { // every case is translated by workers/share goroutines
 					continue
 				}
@@ -309,6 +483,14 @@ func soak(cases []*Case, seed int64, workers int, share int) {
 	wg.Wait()
 	// record, per case, the first result that differs from the sequential one (or the sequential one)
 	for i, c := range cases {
+		ct := c.Top[0]
+		for w := 0; w < workers; w++ {
+			if (i+w)%share == 0 && tops[w][i] != c.Top[0] {
+				ct = tops[w][i]
+				break
+			}
+		}
+		c.Top = append(c.Top, ct)
 		if c.Err != "" {
 			continue
 		}
@@ -436,6 +618,19 @@ func genProf(r *rand.Rand) string {
 var logSel = []string{`{a="b"}`, `{job=~"api.*",level!="debug"}`, `{a="b"} |= "err"`, `{a="b"} |~ "a\\.b"`, `{a="b"} !~ "(?i)abc"`,
 	`{a="b"} | level="error"`, `{a="b"} | json x="x"`, `{a="b"} | level="error" | json x="x" | x="1"`, `{a="b"} | json | x="1"`,
 	`{a="b"} | logfmt`, `{a="b"} | regexp "(?P<m>\\w+)"`, `{a="b"} | line_format "{{.a}}"`, `{a="b"} | drop a`, `{a="b"} | level="x" | drop level`}
+// a breakpoint stage (json without parameters, logfmt, line_format) preceded by stages that stay in ClickHouse:
+// logql_transpiler_v2.Plan splits the script there
+func breakSel(r *rand.Rand) string {
+	pre := []string{` |= "` + pick(r, []string{"err", "error", "x y", "GET"}) + `"`, ` != "debug"`, ` |~ "a\\.b"`, ` !~ "(?i)abc"`,
+		` | level="` + pick(r, []string{"error", "warn"}) + `"`, ` | json x="x"`, ` | drop a`}
+	q := `{` + pick(r, []string{"a", "app", "job"}) + `="` + pick(r, []string{"b", "shop", "api"}) + `"}`
+	for n := 1 + r.Intn(3); n > 0; n-- {
+		q += pick(r, pre)
+	}
+	q += pick(r, []string{" | json", " | logfmt", ` | line_format "{{.a}}"`, ` | json | x="1"`, ` | logfmt | line_format "{{.msg}}"`})
+	return q
+}
+
 var unwrapSel = []string{`{a="b"} | unwrap v`, `{a="b"} | json x="x" | unwrap x`, `{a="b"} | level="error" | unwrap v`, `{a="b"} | logfmt | unwrap dur`}
 
 func genLogQLMetric(r *rand.Rand) (string, []string) {
@@ -497,9 +692,20 @@ func generate(seed int64, n int) []*Case {
 		switch x := r.Intn(10); {
 		case x < 4:
 			c.Lang = "logql"
-			if r.Intn(3) == 0 {
+			if k := r.Intn(6); k < 2 {
 				c.Query = pick(r, logSel)
 				c.Class = []string{"log"}
+			} else if k == 2 {
+				c.Query = breakSel(r)
+				c.Class = []string{"log", "breakpoint"}
+				switch r.Intn(4) {
+				case 0:
+					c.Query = pick(r, []string{"rate", "count_over_time", "absent_over_time"}) + "(" + c.Query + " [5m])"
+					c.Class = []string{"metric", "breakpoint"}
+				case 1:
+					c.Query = "absent_over_time(" + strings.SplitN(c.Query, " | json", 2)[0] + " [5m])"
+					c.Class = []string{"metric", "breakpoint"}
+				}
 			} else {
 				c.Query, c.Class = genLogQLMetric(r)
 			}
@@ -549,6 +755,7 @@ func main() {
 	}
 	// history independence: translate everything again, last case first
 	for i := len(cases) - 1; i >= 0; i-- {
+		cases[i].Top = append(cases[i].Top, runTop(cases[i]))
 		if cases[i].Err == "" {
 			cases[i].Fresh2 = runFresh(cases[i])
 		}
